@@ -75,7 +75,10 @@ inductive Slot where
   | genExpElt
   | dictCompKey
   | dictCompValue
+  /-- the target of a comprehension clause (`ExpressionList` in front of `in`) -/
   | compTarget
+  /-- element of the bare tuple that is the target of a comprehension clause -/
+  | compTargetElt
   | compIter
   | compIf
   | yieldValue
@@ -114,7 +117,7 @@ def allSlots : List Slot :=
   allBinOps.map .binLeft ++ allBinOps.map .binRight ++
   [.awaitOperand, .lambdaBody, .lambdaDefault, .ifBody, .ifTest, .ifOrelse, .dictKey, .dictValue,
    .dictUnpack, .setElt, .listElt, .tupleElt, .subTupleElt, .listCompElt, .setCompElt, .genExpElt,
-   .dictCompKey, .dictCompValue, .compTarget, .compIter, .compIf, .yieldValue, .yieldFromValue,
+   .dictCompKey, .dictCompValue, .compTarget, .compTargetElt, .compIter, .compIf, .yieldValue, .yieldFromValue,
    .callFunc, .callArg, .callKwValue, .callDstarValue, .attrValue, .subValue, .subSlice,
    .sliceLower, .sliceUpper, .sliceStep, .starredValue, .namedValue, .fstringField]
 
@@ -125,18 +128,16 @@ theorem allSlots_complete (s : Slot) : s ∈ allSlots := by
   cases s <;> (try rename_i o; cases o) <;> decide
 
 /-- Which kinds can stand in which slot at all in a parser-built tree: a `Starred` only as element
-    of a display / tuple, call argument or subscript element; a `Slice` only directly under a
-    subscript or in its tuple; a comprehension target is an assignment target (a name,
-    attribute, subscript, list or tuple — kinds `atom` and `tuple`). -/
+    of a display / tuple, call argument, subscript element or comprehension target (element); a `Slice` only
+    directly under a subscript or in its tuple.  A comprehension target is whatever `ExpressionList` reads — the
+    parser does not check that it is an assignment target, so every kind (parenthesised in the source where the
+    grammar needs it) can stand there: `[x for (a if b else c), (lambda: d) in y]`. -/
 def admissible (s : Slot) (k : Kind) : Bool :=
   match k with
   | .starred =>
     s == .setElt || s == .listElt || s == .tupleElt || s == .subTupleElt || s == .callArg ||
-    s == .subSlice || s == .listCompElt
+    s == .subSlice || s == .listCompElt || s == .compTarget || s == .compTargetElt
   | .slice => s == .subSlice || s == .subTupleElt
-  | .namedExpr => s != .compTarget
-  | .tuple => true
-  | .atom => true
-  | _ => s != .compTarget      -- a comprehension target is an assignment target
+  | _ => true
 
 end PV.C11
